@@ -42,6 +42,7 @@ fn main() {
                 "c06d" => vh::c06::child_d(idx),
                 "c05s" => vh::c05::child_s(idx),
                 "c16s" => vh::c16::child_s(idx),
+                "c16m" => vh::c16::child_m(idx),
                 "c15" => vh::c15::child(idx),
                 "hashdigest" | "iddigest" => vh::c12::child(args[2].as_str()),
                 _ => usage(),
@@ -60,7 +61,7 @@ fn main() {
                 "c10" => vh::c10::replay(r),
                 "c07" => vh::c07::replay(r),
                 "c05" | "c05s" => vh::c05::replay(r),
-                "c16h" | "c16s" => vh::c16::replay(r),
+                "c16h" | "c16s" | "c16m" | "c16r" => vh::c16::replay(r),
                 "c15" | "c15enc" => vh::c15::replay(r),
                 "c11" => vh::c11::replay(r),
                 "c12" | "c13" | "c14" => vh::c12::replay(r),
